@@ -153,6 +153,133 @@ def check_triple(case):
                nt=nontrivial, tr=5)
 
 
+# ------------------------------------------------------------------ histories on one generator object
+OPS = ("full", "peek", "half", "tscale", "valid", "valid-peek", "splice", "slice-half", "nested", "raise")
+
+
+def _hist_cases(tier, seed):
+    depth = 3 if tier == "quick" else 4
+    triples = [(600, 100, 20), (37, 10, 4), (20, 20, 0), (50, 16, 8), (9, 4, 2)] + ([(400, 64, 32), (11, 3, 0), (5, 7, 2)] if tier == "thorough" else [])
+    words = [w for d in range(1, depth + 1) for w in itertools.product(OPS, repeat=d)]
+    # one case = one triple x the words that start with a given first operation (a shard of the history tree)
+    return [(t, first) for t in triples for first in OPS], words
+
+
+def hist_cases(tier, seed):
+    return _hist_cases(tier, seed)[0]
+
+
+_WORDS = {}
+
+
+def _hist_setup(tier, seed):
+    _WORDS["w"] = _hist_cases(tier, seed)[1]
+
+
+def hist_check(case):
+    (ns, nswin, overlap), first = case
+    stride = nswin - overlap
+    ref, f = [], 0
+    while True:
+        last = min(f + nswin, ns)
+        ref.append((f, last))
+        if last == ns:
+            break
+        f += stride
+    fs = 3.0
+    ts_ref = np.array([(a + b - 1) / 2.0 / fs for a, b in ref])
+    v, ntr, nstate = [], 0, 0
+
+    def apply(wg, op):
+        """one operation on the object; returns a description of what is wrong, or None"""
+        if op == "full":
+            got = [(int(a), int(b)) for a, b in itertools.islice(wg.firstlast, ns + 3)]
+            return None if got == ref else "a full pass gives %r... (%d windows), expected %r... (%d windows)" % (got[:4], len(got), ref[:4], len(ref))
+        if op == "peek":
+            got = next(iter(wg.firstlast))
+            return None if tuple(int(x) for x in got) == ref[0] else "the first window is %r" % (got,)
+        if op == "half":
+            got = []
+            for fl in wg.firstlast:
+                got.append((int(fl[0]), int(fl[1])))
+                if len(got) >= max(1, len(ref) // 2):
+                    break            # the consumer stops early
+            return None if got == ref[:len(got)] else "an abandoned pass gives %r" % (got[:4],)
+        if op == "tscale":
+            ts = np.asarray(wg.tscale(fs), dtype=float)
+            return None if ts.shape == ts_ref.shape and np.allclose(ts, ts_ref, rtol=0, atol=1e-9) else "tscale has %d entries %r, expected %d" % (ts.size, ts[:3], ts_ref.size)
+        if op in ("valid", "valid-peek"):
+            if overlap % 2:
+                return None
+            if op == "valid-peek":
+                got = next(iter(wg.firstlast_valid))
+                return None if (int(got[0]), int(got[1])) == ref[0] else "first valid window %r" % (got,)
+            cnt = np.zeros(ns, dtype=int)
+            val = list(itertools.islice(wg.firstlast_valid, ns + 3))
+            for a, b, fv, lv in val:
+                cnt[fv:lv] += 1
+            return None if [(int(a), int(b)) for a, b, _, _ in val] == ref and np.all(cnt == 1) else "valid sub-windows cover samples %r times" % (sorted(set(cnt.tolist())),)
+        if op == "splice":
+            if 2 * overlap > nswin:
+                return None
+            tot = np.zeros(ns)
+            n = 0
+            for a, b, amp in itertools.islice(wg.firstlast_splicing, ns + 3):
+                tot[a:b] += amp
+                n += 1
+            return None if n == len(ref) and np.allclose(tot, 1.0, rtol=0, atol=1e-9) else "splicing amplitudes sum to %r over %d windows" % (sorted(set(np.round(tot, 6).tolist()))[:4], n)
+        if op == "slice-half":
+            got = []
+            for sl in wg.slice:
+                got.append((sl.start, sl.stop))
+                if len(got) >= max(1, len(ref) // 2):
+                    break
+            return None if got == ref[:len(got)] else "slices %r" % (got[:4],)
+        if op == "nested":
+            # another pass over the same object inside a pass (time scale asked for while iterating), outer pass abandoned after it
+            for i, fl in enumerate(wg.firstlast):
+                ts = np.asarray(wg.tscale(fs), dtype=float)
+                if ts.shape != ts_ref.shape or not np.allclose(ts, ts_ref, rtol=0, atol=1e-9):
+                    return "tscale asked for inside a pass has %d entries, expected %d" % (ts.size, ts_ref.size)
+                break
+            return None
+        if op == "raise":
+            # processing of a window raises, the caller handles it and goes on with the same object
+            try:
+                for i, fl in enumerate(wg.firstlast):
+                    if i == min(1, len(ref) - 1):
+                        raise KeyError("window processing failed")
+            except KeyError:
+                pass
+            return None
+        raise ValueError(op)
+
+    seen_states = set()
+    for w in _WORDS["w"]:
+        if w[0] != first:
+            continue
+        wg = utils.WindowGenerator(ns, nswin, overlap)
+        for i, op in enumerate(w):
+            try:
+                bad = apply(wg, op)
+            except Exception as e:
+                bad = "%s: %s" % (type(e).__name__, e)
+            ntr += 1
+            if bad:
+                v.append(("history:%s-after-%s" % (op, w[i - 1] if i else "new"), "WindowGenerator(%d, %d, %d) after %r on the same object: %s: %s" % (ns, nswin, overlap, list(w[:i]), op, bad)))
+                break
+        if wg.nwin != len(ref):
+            v.append(("history:nwin", "WindowGenerator(%d, %d, %d) after %r: nwin=%r but %d windows" % (ns, nswin, overlap, list(w), wg.nwin, len(ref))))
+        seen_states.add((wg.iw, wg.nwin))
+        nstate += 1
+        if len(v) > 3:
+            break
+    uniq = {}
+    for k, m in v:
+        uniq.setdefault(k, m)
+    return Res(list(uniq.items()), o=(len(ref) > 2, overlap == 0, len(seen_states)), nt=len(ref) >= 2, tr=ntr, x=dict(histories=nstate))
+
+
 CHECK = {
     "property": "C17",
     "rule": "every (ns, nswin, overlap<nswin) triple of the box is a distinct case; non-trivial = at least two windows",
@@ -164,5 +291,7 @@ CHECK = {
     "clauses": [
         Clause("box", "all triples in the box", cases=_box, check=check_triple),
         Clause("large", "production-size triples", cases=_large, check=check_triple),
+        Clause("object-histories", "every sequence (to depth 3 quick / 4 thorough) of complete, abandoned, nested and failing passes, time scales, valid windows, splicing and slices on ONE "
+               "generator object: every operation still gives the reference answer", cases=hist_cases, check=hist_check, setup=_hist_setup),
     ],
 }
